@@ -8,6 +8,7 @@ import CookModel.Lemmas.CloseC03
 import CookModel.Lemmas.AstBuild
 import CookModel.Lemmas.ConsumersNoPanic
 import CookModel.Lemmas.InlineScan
+import CookModel.Lemmas.FinderSpec
 import CookModel.Props.C09
 import CookModel.Props.C04
 import CookModel.Lemmas.TableFacts
@@ -883,5 +884,34 @@ theorem C03_parse_reference_pop_safe (name : Str) (h : (parseReference name).isS
 /-- the shortest path-like names take the branch: `./` (one empty piece) and `..\a` -/
 example : (parseReference "./".toList).isSome = true ∧ (parseReference "..\\a".toList).isSome = true ∧
     (splitOnChar '/' "./".toList).drop 1 = [[]] := by decide
+
+-- ===== w8c02finder =====
+
+/-- **The candidate sequence of `find_inline_quantity` is finite and every scan position is a character position.**
+    For every step text: either some candidate of its candidate sequence is accepted (`FsFinds`) or the sequence
+    ends with all refused (`FsNothing`) — the `while let` always comes to one of its two exits; and each candidate
+    splits the text it is read from into whole pieces, `rest = skipped ++ number ++ gap ++ unit ++ after`
+    (`fs_nextCand_split`), with `after` strictly shorter than `rest`: every position the scan resumes at
+    (`after`) is a suffix of the text in CHARACTERS.
+    What this does NOT say (seeds C02-6 / C03-5, still tied by the correspondence run only): that the code computes
+    these positions as byte offsets correctly — the model has no byte offsets at this site, so adding a character
+    count to a byte index is not expressible in it. -/
+theorem C03_inline_candidates_finite {α : Type} [Arith α] (env : Env) (hd : DigitsNotWs env.cs) (txt : Str) :
+    ((∃ h : InlineHit α, FsFinds env [] txt h) ∨ FsNothing α env txt) ∧
+    ∀ rest c, fsNextCand env.cs rest = some c →
+      rest = c.skipped ++ c.number ++ c.gap ++ c.unit ++ c.after ∧ c.after.length < rest.length := by
+  constructor
+  · have hs := fs_find_spec (α := α) env hd (txt.length + 1) [] txt (by omega)
+    cases hf : findInlineQuantity (α := α) env (txt.length + 1) [] txt with
+    | none => rw [hf] at hs; exact Or.inr hs
+    | some h => rw [hf] at hs; exact Or.inl ⟨h, hs⟩
+  · intro rest c hc
+    exact ⟨(fs_nextCand_split env.cs rest c hc).1, fs_after_shorter env hd rest c hc⟩
+
+/-- `2 œufs` (multi-byte characters in the unit word; the toy character table of the examples knows ASCII white
+    space only, texts with U+00A0 after the number are in the C02/C03 generators of the correspondence run): the
+    candidate is `2`, one space, `œufs` -/
+example : fsNextCand riToyEnv.cs ['2', ' ', 'œ', 'u', 'f', 's'] =
+    some ⟨[], ['2'], [' '], ['œ', 'u', 'f', 's'], []⟩ := by decide +kernel
 
 end Cook
